@@ -1,7 +1,11 @@
+#[cfg(feature = "verif")]
+use crate::verif::fs::File;
+#[cfg(not(feature = "verif"))]
+use std::fs::File;
+#[allow(unused_imports)]
 use std::{
     collections::VecDeque,
     error::Error,
-    fs::File,
     io::{Read, Write},
 };
 
@@ -114,7 +118,30 @@ impl Window {
     }
 }
 
-#[cfg(test)]
+#[cfg(feature = "verif")]
+impl Window {
+    /// Verification hook: puts the freshly created `Window` into an injected state.
+    pub fn verif_preload(&mut self) {
+        use crate::verif::{PRELOAD_BYTES, PRELOAD_CHUNK, PRELOAD_MODE, PRELOAD_N};
+        unsafe {
+            if PRELOAD_MODE == 1 {
+                for _ in 0..PRELOAD_N {
+                    let mut chunk = vec![0; self.chunk_size];
+                    let size = self.file.read(&mut chunk).unwrap();
+                    chunk.truncate(size);
+                    self.elements.push_back(chunk);
+                }
+            } else if PRELOAD_MODE == 2 {
+                for i in 0..PRELOAD_N as usize {
+                    self.elements
+                        .push_back(PRELOAD_BYTES[i * PRELOAD_CHUNK..(i + 1) * PRELOAD_CHUNK].to_vec());
+                }
+            }
+        }
+    }
+}
+
+#[cfg(all(test, not(feature = "verif")))]
 mod tests {
     use super::*;
     use std::{
